@@ -3,7 +3,7 @@
 from whad.protocol.whad_pb2 import Message
 from whad.scapy.layers.esb import ESB_Hdr, ESB_Payload_Hdr, ESB_Ack_Response, ESB_Pseudo_Packet
 from ..message import pb_bind, PbFieldBytes, PbFieldBool, PbFieldInt, PbMessageWrapper, \
-    dissect_failsafe
+    dissect_failsafe, convert_failsafe
 from whad.scapy.layers.unifying import bind
 from whad.hub.message import AbstractPacket
 from . import UnifyingDomain, UnifyingMetadata
@@ -32,6 +32,7 @@ class SendPdu(PbMessageWrapper):
         return packet
 
     @staticmethod
+    @convert_failsafe
     def from_packet(packet, retr_count: int = 1):
         """Convert scapy packet to SendPdu message.
         """
@@ -66,6 +67,7 @@ class SendRawPdu(PbMessageWrapper):
 
 
     @staticmethod
+    @convert_failsafe
     def from_packet(packet, retr_count: int = 1):
         """Convert scapy packet to SendPdu message.
         """
@@ -112,6 +114,7 @@ class PduReceived(PbMessageWrapper):
         return packet
 
     @staticmethod
+    @convert_failsafe
     def from_packet(packet):
         """Convert scapy packet to PduReceived message
         """
@@ -172,6 +175,7 @@ class RawPduReceived(PbMessageWrapper):
         return packet
 
     @staticmethod
+    @convert_failsafe
     def from_packet(packet):
         """Convert scapy packet to RawPduReceived message
         """
